@@ -321,6 +321,11 @@ def _write(case, calls=None, tmpdir=None):
     if case["target"] == "file":
         w.path = os.path.join(tmpdir, case["fname"])
         target = w.path
+        if len(case["fname"]) % 2 == 0 and not os.path.exists(w.path):
+            # the path already holds an older, longer file: building replaces it (stale bytes behind the
+            # last block would break "extents end exactly at end-of-file")
+            with open(w.path, "wb") as f:
+                f.write(b"older content " * 4000)
     elif case["target"] == "handle":
         w.path = None
         w.handle_path = os.path.join(tmpdir, case["fname"])
